@@ -122,8 +122,12 @@ class unix_disabled(uh.ifc.DisabledHash, uh.MinimalHandler):
         if hash is not None:
             hash = to_native_str(hash, param="hash")
             if cls.identify(hash):
-                # extract original hash, so that we normalize marker
-                hash = cls.enable(hash)
+                # extract original hash (if any), so that we normalize marker
+                try:
+                    hash = cls.enable(hash)
+                except ValueError:
+                    # bare marker or empty string: already disabled, nothing embedded
+                    hash = None
             if hash:
                 out += hash
         return out
